@@ -1216,3 +1216,4 @@ def parts(tier):
 
 
 RULE += '  Added after the seeding rounds: adapter-plot gives the plot interval in metres for data in feet and the reverse (every second case); generated FILM tables use every DSCA code of the scale map including D240.'
+RULE += '  Round 16: half of the generated LIS files declare -9999 or -32768 as the absent value (entry block 12) and hold it in their gaps.'
